@@ -67,10 +67,12 @@ PROP = {
         "validateBisyncRdbExecReplies' tolerance is reached - observation); on the expansion paths a key created inside the window "
         "would be merged into (needs WATCH/Lua, outside a minimal repair) - assumption 'no other writer on the key during its replay'",
         "entry shapes: Group/Value (first bin first, later bins same key, commands on the key - `cmdKey` takes the second argument "
-        "for XGROUP) are hypotheses about loader output, not checked on real entries; module values and streams are not generated "
-        "(C03 covers their expansion)",
+        "for XGROUP) are hypotheses about loader output, not checked on real entries; since the second review streams (hand-built, "
+        "with a consumer group, a pending entry and a consumer: XGROUP CREATE / XCLAIM), module values (type 7) and a 120-element "
+        "list (pipelined expansion, flushed every 100) are generated: exhaustive scopes per mode + random cases",
         "replaceHashTag: modelled as replaying `retag e` (target key = key without its first '{' and first '}', key argument of the "
-        "native commands rewritten) on both paths; exercised with tagged keys ({t}k, k{t}, a{k}z, }k{, {{k}}, {k, {}k), split "
+        "native commands rewritten) on both paths; exercised with tagged keys ({t}k, k{t}, a{k}z, }k{, {{k}}, {k, {}k, and {} / }{ which "
+        "rewrite to the EMPTY key - D29), split "
         "values and the rewritten / the unrewritten name pre-populated (exhaustive 162-case scope per mode + 1/4 of the random cases)",
         "later chunks carry the key's expiry or none (Value.exp): holds for the loader before and after the D8 repair",
     ],
@@ -81,8 +83,11 @@ PROP = {
         "replaceHashTag: the worker replays `retag e` - applied in the driver; proved only that retag keeps a key group a key group "
         "on the rewritten key (retag_group) and moves the command key (rewriteCmd_cmdKey); that the real code equals `replay (retag e)` "
         "is correspondence (D27, D28, D29 were found there)",
-        "Group / Value (shape of loader output) are hypotheses; streams (XGROUP/XCLAIM key positions) and module values are not "
-        "generated in C20 (a mutation rewriting only key position 0 under replaceHashTag is missed here)",
+        "Group / Value (shape of loader output) are hypotheses about what rdb.Loader delivers (C03's subject), checked on the "
+        "generated snapshots only through the request-by-request diff",
+        "a module value that cannot take the RESTORE path (restore off / above the bulk limit / refused) fails the replay with "
+        "'module object requires RESTORE replay' whatever the policy and whether or not the key exists (plain path: before the probe): "
+        "modelled so (errModule), monitor: key unchanged; the policy theorems exclude it through Value",
         "expiry: snapshot_exp_abs covers tool clock = target clock and a future expiry only",
         "two snapshot keys that rewrite to the same target key ({a}b and ab) / two source DBs mapped onto one target DB with the same "
         "key name: the second meets the first as a pre-existing key; not generated, meaning left to the policy",
